@@ -94,12 +94,20 @@ def _grouprefs(item):
     return out
 
 
-def _value_indices(expr):
+def _value_indices(expr, fn=None):
     """[(i, node)] for self.value[i] operands of an or-chain; plus whether the chain ends with self.in_cell.title"""
     ops = expr.values if isinstance(expr, ast.BoolOp) and isinstance(expr.op, ast.Or) else [expr]
     out, fallback, other = [], False, []
+
+    def is_value(e):
+        if ast.unparse(e) == 'self.value':
+            return True
+        if isinstance(e, ast.Name) and fn is not None:
+            r_, o_ = _resolve_local(fn, e)
+            return o_ is None and r_ is not e and ast.unparse(r_) == 'self.value'
+        return False
     for o in ops:
-        if isinstance(o, ast.Subscript) and ast.unparse(o.value) == 'self.value' and isinstance(o.slice, ast.Constant) and \
+        if isinstance(o, ast.Subscript) and is_value(o.value) and isinstance(o.slice, ast.Constant) and \
                 isinstance(o.slice.value, int):
             out.append((o.slice.value, o))
         elif ast.unparse(o) in ('self.in_cell.title', 'self._in_cell.title'):
@@ -129,6 +137,14 @@ def _resolve_local(fn, e, depth=0):
                 return _resolve_local(fn, v, depth + 1)
             if isinstance(v, (ast.Tuple, ast.List)) and pos < len(v.elts):
                 return _resolve_local(fn, v.elts[pos], depth + 1)
+            # a, b = (f(k) for k in (1, 2)): element `pos` is f(<pos-th constant>)
+            if isinstance(v, (ast.GeneratorExp, ast.ListComp)) and len(v.generators) == 1 and not v.generators[0].ifs and \
+                    isinstance(v.generators[0].iter, (ast.Tuple, ast.List)) and isinstance(v.generators[0].target, ast.Name) and \
+                    pos < len(v.generators[0].iter.elts):
+                import copy as _copy
+                from ..inline import _Subst
+                elt = _Subst({v.generators[0].target.id: v.generators[0].iter.elts[pos]}, {}).visit(_copy.deepcopy(v.elt))
+                return _resolve_local(fn, elt, depth + 1)
             if isinstance(v, ast.Call) and isinstance(v.func, ast.Name) and v.func.id in ('sorted', 'min', 'max', 'reversed'):
                 return e, (v, pos)
         return e, None
@@ -159,6 +175,13 @@ def r1(run: Run, src, g):
         fi = t.ci.methods.get(prop)
         if fi is None:
             raise AnalysisError('C02.R1', f'{tname}.{prop} not found')
+        # helpers of the class / module that the accessor calls are read in place (their `self` is the token)
+        import copy as _copy
+        from ..inline import inline_methods, class_resolver, module_resolver
+        _node = inline_methods(fi.node, class_resolver(src, t.ci, fi), depth=2, exclude={prop})
+        _node = inline_methods(_node, module_resolver(fi.module.tree), depth=2)
+        fi = _copy.copy(fi)
+        fi.node = _node
         rx = t.rx
         calls = sorted([n for n in ast.walk(fi.node) if isinstance(n, ast.Call) and isinstance(n.func, ast.Name) and n.func.id == 'Cell'],
                        key=lambda n: (n.lineno, n.col_offset))
@@ -187,7 +210,7 @@ def r1(run: Run, src, g):
                                 f'so an area such as B1:AA5 gets its corners exchanged', loc=loc)
                         continue
                     raise AnalysisError('C02.R1', f'{construct0}: the corner coordinates are re-ordered with `{ast.unparse(call_)[:50]}`')
-                idxs, fallback, other = _value_indices(operand)
+                idxs, fallback, other = _value_indices(operand, fi.node)
                 if other:
                     raise AnalysisError('C02.R1', f'{construct0}: unmodelled operand `{ast.unparse(other[0])[:40]}`')
                 if fld == 'title':
@@ -236,20 +259,9 @@ def _excel_env(src):
     return {'self._data': Level(SHEET), 'self._sheets_size': Sizes(0)}
 
 
-def r2(run: Run, src):
-    fields = cell_field_order(src)
-    checked = 0
-
-    def report(rc: RoleChecker, fi, what):
-        nonlocal checked
-        checked += rc.sinks
-        if not rc.clashes:
-            run.ok('C02.R2', f'{fi.qualname}', f'{rc.sinks} role sink(s) consistent ({what})', loc=loc_of(fi.module.path, fi.node))
-        for c in rc.clashes:
-            run.bad('C02.R2', f'{fi.qualname}', f'{c.kind}:{_short(c.node)}', c.msg, loc=loc_of(fi.module.path, c.node))
-
-    # handle_cell: text -> 0-based
-    fi = src.func('handle_cell')
+def _handle_cell_roles(run, src, fields, report):
+    from .common import inlined_function as _inl_hc
+    fi = _inl_hc(src, 'handle_cell')
     rc = RoleChecker(fi.node, {fi.params[0]: CellR('text')}, fields, qual=fi.qualname).run()
     # the stored values
     finals = {k: v for k, v in rc.env.items() if isinstance(k, str) and k.startswith(fi.params[0] + '.')}
@@ -272,6 +284,34 @@ def r2(run: Run, src):
     run.check(has_none, 'C02.R2', 'handle_cell/whole-column', 'whole-column-row', 'an empty row text is not turned into None '
               '(whole column)', fact='row None for A:A', loc=loc_of(fi.module.path, fi.node))
 
+
+
+def r2(run: Run, src):
+    fields = cell_field_order(src)
+    checked = 0
+
+    def report(rc: RoleChecker, fi, what):
+        nonlocal checked
+        checked += rc.sinks
+        if not rc.clashes:
+            run.ok('C02.R2', f'{fi.qualname}', f'{rc.sinks} role sink(s) consistent ({what})', loc=loc_of(fi.module.path, fi.node))
+        for c in rc.clashes:
+            run.bad('C02.R2', f'{fi.qualname}', f'{c.kind}:{_short(c.node)}', c.msg, loc=loc_of(fi.module.path, c.node))
+
+    # handle_cell: text -> 0-based.  Decided by evaluation (r3_eval); the role reading below is the fallback
+    hc_by_eval = True
+    try:
+        sub_ = Run('tmp', run.tier, run.seed, quiet=True)
+        r3_eval(sub_, src)
+        for o_ in sub_.obligations:
+            if o_['verdict'] == 'holds':
+                run.ok('C02.R2', o_['construct'], o_['fact'], loc=o_['loc'])
+        for f_ in sub_.findings:
+            run.bad('C02.R2', f_['construct'], f_['sub'], f_['message'], loc=f_['loc'])
+    except AnalysisError:
+        hc_by_eval = False
+    if not hc_by_eval:
+        _handle_cell_roles(run, src, fields, report)
     # Cell.uid order
     uid = src.cls('Cell').methods.get('uid')
     lists = [n for n in ast.walk(uid.node) if isinstance(n, ast.List) and len(n.elts) == 3 and
@@ -379,7 +419,8 @@ def _last_assigned(fn, fld, rc, param, fields):
 
 
 def r3(run: Run, src):
-    fi = src.func('handle_cell')
+    from .common import inlined_function as _inl_hc
+    fi = _inl_hc(src, 'handle_cell')
     fn = fi.node
     cellp, titles = fi.params[0], fi.params[1]
     # the only store to <cell>.title is a subscript of the title map keyed by the title itself
@@ -427,6 +468,66 @@ def r3(run: Run, src):
             run.bad('C02.R3', 'handle_cell/int(title)', 'title-as-index',
                     'a str title is converted to a sheet index: a worksheet whose title is all digits can no longer be addressed',
                     loc=loc_of(fi.module.path, n))
+
+
+def r3_eval(run: Run, src):
+    """address normalisation decided by abstract evaluation (engine F) of handle_cell on modelled Cell objects: text
+    coordinates become 0-based indices, a title is resolved through the title table only (a digit-only title too), an unknown
+    title is rejected, numbers pass unchanged, an empty row text means the whole column"""
+    from ..finite import Evaluator, AV, const_av, Unknown, AbsRaise
+    from .common import library_exceptions
+    fi = src.func('handle_cell')
+    lib = library_exceptions(src)
+    titles = AV('dict', items=tuple(AV('tuple', items=(const_av(k), const_av(v))) for k, v in
+                                    (('Sheet1', 0), ('Data', 1), ('2024', 2), ('7', 3))))
+
+    def run_case(title, column, row):
+        ev = Evaluator({}, max_depth=8)
+        ev.functions = {st.name: st for st in fi.module.tree.body if isinstance(st, ast.FunctionDef)}
+        cell = ev.new_obj('Cell', {'title': const_av(title), 'column': const_av(column), 'row': const_av(row),
+                                   '_handled_identifiers': const_av(False)})
+        at = ev.obj_attrs(cell)
+        at['has_handled_identifiers'] = AV('func', val=('native', lambda a, at=at: at['_handled_identifiers']))
+        # what the Cell class itself does to its fields when it is created
+        cell_ci = src.cls('Cell')
+        for hook_name in ('__post_init__',):
+            hk = cell_ci.methods.get(hook_name)
+            if hk is not None:
+                ev.call_function(hk.node, [cell])
+        ev.call_function(fi.node, [cell, titles])
+        return tuple(at[k].val if at[k].kind != 'none' else None for k in ('title', 'column', 'row'))
+    cases = [(('Data', 'C', '5'), (1, 2, 4), 'text address'), (('Sheet1', 'A', '1'), (0, 0, 0), 'first cell'),
+             (('Data', 'AA', '10'), (1, 26, 9), 'two-letter column'), (('Data', 'XFD', '1048576'), (1, 16383, 1048575), 'last cell'),
+             ((1, 2, 4), (1, 2, 4), 'numeric address'), (('Data', 'B', ''), (1, 1, None), 'whole column'),
+             (('2024', 'A', '1'), (2, 0, 0), 'sheet titled with digits'), (('7', 'B', '2'), (3, 1, 1), 'one-digit sheet title'),
+             (('Nope', 'A', '1'), 'rejected', 'unknown title'), (('5', 'A', '1'), 'rejected', 'digit title that does not exist')]
+    for (t, c, r), want, what in cases:
+        construct = f'handle_cell/{what}'
+        try:
+            got = run_case(t, c, r)
+        except Unknown as u:
+            raise AnalysisError('C02.R3', f'{construct}: the abstraction cannot follow handle_cell ({u})')
+        except AbsRaise as e:
+            got = 'rejected' if e.exc in lib else f'raises {e.exc}'
+        run.check(got == want, 'C02.R3', construct, 'address-normalisation',
+                  f'handle_cell on Cell({t!r}, {c!r}, {r!r}) with the titles Sheet1, Data, 2024, 7 gives {got!r}; expected {want!r} '
+                  f'(title through the title table only, letters and digits to 0-based indices, empty row = whole column)',
+                  fact=f'-> {got!r}', loc=loc_of(fi.module.path, fi.node))
+
+
+def r3_both(run: Run, src):
+    """decided by evaluation; the structural reading is the fallback when the abstraction cannot follow the function"""
+    try:
+        sub = Run('tmp', run.tier, run.seed, quiet=True)
+        r3_eval(sub, src)
+    except AnalysisError as e:
+        run.note(f'C02.R3 evaluation skipped: {e.reason[:120]}')
+        return r3(run, src)
+    for o in sub.obligations:
+        if o['verdict'] == 'holds':
+            run.ok(o['rule'], o['construct'], o['fact'], loc=o['loc'])
+    for f in sub.findings:
+        run.bad(f['rule'], f['construct'], f['sub'], f['message'], loc=f['loc'])
 
 
 def r4_r5(run: Run, src):
@@ -608,7 +709,7 @@ def run(run: Run):
     run.rule('C02.R5', 'the extent of an area depends on coordinates and sizes only')
     run.guard('C02.R1', r1, run, src, g)
     run.guard('C02.R2', r2, run, src)
-    run.guard('C02.R3', r3, run, src)
+    run.guard('C02.R3', r3_both, run, src)
     run.guard('C02.R4', r4_r5, run, src)
     # a title resolves to the right sheet only if the title list is index-aligned with the data: shared with C18.R2
     from .common import borrow
